@@ -178,11 +178,15 @@ struct Emit<C> {
     /// name of the module the message under test goes to (handed to the reply as payload)
     #[serde(default)]
     tag: String,
+    /// plain messages listed after `msgs` (reply_on Never)
+    #[serde(default = "Vec::new")]
+    trailing: Vec<CosmosMsg<C>>,
 }
 fn subs<C: Clone + std::fmt::Debug + PartialEq + schemars::JsonSchema>(m: Emit<C>) -> Vec<SubMsg<C>> {
     let mode = m.reply_on;
     let tag = Binary::from(m.tag.as_bytes().to_vec());
-    m.msgs
+    let mut out: Vec<SubMsg<C>> = m
+        .msgs
         .into_iter()
         .map(|x| match mode {
             1 => SubMsg::reply_on_success(x, 7).with_payload(tag.clone()),
@@ -190,7 +194,9 @@ fn subs<C: Clone + std::fmt::Debug + PartialEq + schemars::JsonSchema>(m: Emit<C
             3 => SubMsg::reply_always(x, 7).with_payload(tag.clone()),
             _ => SubMsg::new(x),
         })
-        .collect()
+        .collect();
+    out.extend(m.trailing.into_iter().map(SubMsg::new));
+    out
 }
 /// the reply handlers follow up with one more message (seed C17e: messages returned from a reply —
 /// also from one that handles a failure — reach their modules like any other).  The follow-up goes to the
@@ -272,8 +278,8 @@ fn messages() {
         .build(|router, _, storage| router.bank.init_balance(storage, &user, vec![coin(u0, "x")]).unwrap());
     let code_c = app.store_code(Box::new(ContractWrapper::new(exec_custom, inst_custom, query_custom).with_sudo(perm_custom).with_migrate(perm_custom).with_reply(reply_custom)));
     let code_e = app.store_code(Box::new(ContractWrapper::new_with_empty(exec_empty, inst_empty, query_empty).with_sudo_empty(perm_empty).with_migrate_empty(perm_empty).with_reply_empty(reply_empty)));
-    let kc = app.instantiate_contract(code_c, user.clone(), &Emit::<MyMsg> { msgs: vec![], reply_on: 0, tag: String::new() }, &[], "kc", Some(user.to_string())).unwrap();
-    let ke = app.instantiate_contract(code_e, user.clone(), &Emit::<Empty> { msgs: vec![], reply_on: 0, tag: String::new() }, &[], "ke", Some(user.to_string())).unwrap();
+    let kc = app.instantiate_contract(code_c, user.clone(), &Emit::<MyMsg> { msgs: vec![], reply_on: 0, tag: String::new(), trailing: vec![] }, &[], "kc", Some(user.to_string())).unwrap();
+    let ke = app.instantiate_contract(code_e, user.clone(), &Emit::<Empty> { msgs: vec![], reply_on: 0, tag: String::new(), trailing: vec![] }, &[], "ke", Some(user.to_string())).unwrap();
     let origin = choose(3); // 0 top level, 1 custom-typed contract, 2 Empty-typed contract (lifted)
     let amt = sym_u128("amt", 1, BAL);
     let custom_kinds = kinds(Some(MyMsg { tag: "hello".into() }), &other, amt);
@@ -311,10 +317,16 @@ fn messages() {
         if origin == 0 {
             return app.execute_multi(user.clone(), vec![pay.clone(), custom_kinds[which].1.clone()]);
         }
+        // after the message under test the contract lists one more, for another module (seed C17k: what
+        // follows an uncaught failure in the same response is never dispatched)
         let (target, code, body) = if origin == 1 {
-            (kc.clone(), code_c, to_json_binary(&Emit { msgs: vec![custom_kinds[which].1.clone()], reply_on, tag: module.to_string() }).unwrap())
+            let trailing: CosmosMsg<MyMsg> = CosmosMsg::Distribution(DistributionMsg::SetWithdrawAddress { address: "trailing".into() });
+            let trailing = if module == "distribution" { CosmosMsg::Ibc(IbcMsg::CloseChannel { channel_id: "trailing".into() }) } else { trailing };
+            (kc.clone(), code_c, to_json_binary(&Emit { msgs: vec![custom_kinds[which].1.clone()], reply_on, tag: module.to_string(), trailing: vec![trailing] }).unwrap())
         } else {
-            (ke.clone(), code_e, to_json_binary(&Emit { msgs: vec![empty_kinds[which].1.clone()], reply_on, tag: module.to_string() }).unwrap())
+            let trailing: CosmosMsg<Empty> = CosmosMsg::Distribution(DistributionMsg::SetWithdrawAddress { address: "trailing".into() });
+            let trailing = if module == "distribution" { CosmosMsg::Ibc(IbcMsg::CloseChannel { channel_id: "trailing".into() }) } else { trailing };
+            (ke.clone(), code_e, to_json_binary(&Emit { msgs: vec![empty_kinds[which].1.clone()], reply_on, tag: module.to_string(), trailing: vec![trailing] }).unwrap())
         };
         let call: CosmosMsg<MyMsg> = match entry {
             0 => cosmwasm_std::WasmMsg::Execute { contract_addr: target.to_string(), msg: body, funds: vec![] }.into(),
@@ -367,7 +379,17 @@ fn messages() {
     };
     // a reply that is due follows up with one message to another module, from the same contract
     let reply_due = (module_fails && (reply_on == 2 || reply_on == 3)) || (!module_fails && (reply_on == 1 || reply_on == 3));
-    check_native("exactly_the_expected_module_invocations", entries.len() == 1 + reply_due as usize, || format!("reply due: {}, {:?}", reply_due, entries));
+    // contracts list a trailing message after the one under test: dispatched unless that one failed uncaught
+    let trailing_runs = origin != 0 && !(module_fails && !caught);
+    check_native("exactly_the_expected_module_invocations", entries.len() == 1 + reply_due as usize + trailing_runs as usize, || {
+        format!("reply due: {}, trailing dispatched: {}, {:?}", reply_due, trailing_runs, entries)
+    });
+    if trailing_runs {
+        if let Some(t_) = entries.last() {
+            let tm = if module == "distribution" { "ibc" } else { "distribution" };
+            check_native("later_messages_of_the_response_reach_their_modules_in_order", t_.module == tm, || format!("{:?} expected {}", t_, tm));
+        }
+    }
     if reply_due {
         if let Some(f) = entries.get(1) {
             witness("follow_up_from_reply_routed");
@@ -411,7 +433,7 @@ fn queries() {
         .with_stargate(RecStargate)
         .build(|_, _, _| {});
     let code_c = app.store_code(Box::new(ContractWrapper::new(exec_custom, inst_custom, query_custom).with_sudo(perm_custom).with_migrate(perm_custom).with_reply(reply_custom)));
-    let kc = app.instantiate_contract(code_c, user.clone(), &Emit::<MyMsg> { msgs: vec![], reply_on: 0, tag: String::new() }, &[], "kc", Some(user.to_string())).unwrap();
+    let kc = app.instantiate_contract(code_c, user.clone(), &Emit::<MyMsg> { msgs: vec![], reply_on: 0, tag: String::new(), trailing: vec![] }, &[], "kc", Some(user.to_string())).unwrap();
     let reqs: Vec<(&str, QueryRequest<MyQuery>, bool)> = vec![
         ("staking", QueryRequest::Staking(StakingQuery::BondedDenom {}), true),
         ("custom", QueryRequest::Custom(MyQuery { tag: "q".into() }), true),
@@ -467,8 +489,8 @@ fn bank_routing() {
         .build(|_, _, _| {});
     let code_c = app.store_code(Box::new(ContractWrapper::new(exec_custom, inst_custom, query_custom).with_sudo(perm_custom).with_migrate(perm_custom).with_reply(reply_custom)));
     let code_e = app.store_code(Box::new(ContractWrapper::new_with_empty(exec_empty, inst_empty, query_empty).with_sudo_empty(perm_empty).with_migrate_empty(perm_empty).with_reply_empty(reply_empty)));
-    let kc = app.instantiate_contract(code_c, user.clone(), &Emit::<MyMsg> { msgs: vec![], reply_on: 0, tag: String::new() }, &[], "kc", Some(user.to_string())).unwrap();
-    let ke = app.instantiate_contract(code_e, user.clone(), &Emit::<Empty> { msgs: vec![], reply_on: 0, tag: String::new() }, &[], "ke", Some(user.to_string())).unwrap();
+    let kc = app.instantiate_contract(code_c, user.clone(), &Emit::<MyMsg> { msgs: vec![], reply_on: 0, tag: String::new(), trailing: vec![] }, &[], "kc", Some(user.to_string())).unwrap();
+    let ke = app.instantiate_contract(code_e, user.clone(), &Emit::<Empty> { msgs: vec![], reply_on: 0, tag: String::new(), trailing: vec![] }, &[], "ke", Some(user.to_string())).unwrap();
     let amt = sym_u128("amt", 0, BAL);
     let lists: Vec<Vec<Coin>> = vec![vec![], vec![coin(amt, "x")], vec![coin(u(0), "x")], vec![coin(amt, "x"), coin(u(7), "y")]];
     let coins = lists[choose(lists.len())].clone();
@@ -483,8 +505,8 @@ fn bank_routing() {
     LOG.with(|l| l.borrow_mut().clear());
     let r = catch(|| match origin {
         0 => app.execute(user.clone(), CosmosMsg::<MyMsg>::Bank(bank.clone())),
-        1 => app.execute_contract(user.clone(), kc.clone(), &Emit::<MyMsg> { msgs: vec![CosmosMsg::Bank(bank.clone())], reply_on: 0, tag: String::new() }, &[]),
-        _ => app.execute_contract(user.clone(), ke.clone(), &Emit::<Empty> { msgs: vec![CosmosMsg::Bank(bank.clone())], reply_on: 0, tag: String::new() }, &[]),
+        1 => app.execute_contract(user.clone(), kc.clone(), &Emit::<MyMsg> { msgs: vec![CosmosMsg::Bank(bank.clone())], reply_on: 0, tag: String::new(), trailing: vec![] }, &[]),
+        _ => app.execute_contract(user.clone(), ke.clone(), &Emit::<Empty> { msgs: vec![CosmosMsg::Bank(bank.clone())], reply_on: 0, tag: String::new(), trailing: vec![] }, &[]),
     });
     let r = match r {
         Ok(r) => r,
